@@ -78,6 +78,10 @@ def cases(quick, rng):
         if kind == 'ru':
             for ip, fp, dot, prec in items[::3 if quick else 1]:
                 C.append({'f': 'ru', 'a': [ip + ('.' if dot else '') + fp, prec]})
+            # precisions beyond the five decimals both sides keep (6..9): outside C06's grid, but both languages answer, so
+            # the statement ("every input in the shared domain") covers them (seed C18-j)
+            for k, (ip, fp, dot, prec) in enumerate(items[::29 if quick else 5]):
+                C.append({'f': 'ru', 'a': [ip + ('.' if dot else '') + fp, 6 + k % 4]})
         elif kind == 'ft':
             for x, prec in items[::2 if quick else 1]:
                 C.append({'f': 'ft', 'a': [x, prec]})
